@@ -190,3 +190,11 @@ Theorem released_key_reusable2 :
   forall s o1 o2, Inv2 s -> op_ok2 s o1 -> pre2 (fst (step2 s o1)) o2 -> snd (step2 (fst (step2 s o1)) o2) = Ok.
 Proof. exact Proofs_RegPre.released_key_reusable2. Qed.
 Print Assumptions released_key_reusable2.
+
+(* ONE theorem for other streams to cite: every reachable state of the three-layer model satisfies all the
+   statements of C04 and C05 at once ([ModelInvariants], Acme.C04.Spec2: KeysUnique, LookupByNameSpec,
+   LinksSymmetric, ContainersExclusive, NodeInterfacesContiguous on the layer-1 part, ReferencesExact on
+   the layer-3 part, SignalNamesUnique, GetSignalByNameSpec, SignalParentLinks, SignalExclusive) *)
+Theorem reach2_model_invariants : forall s, Reach2 s -> ModelInvariants s.
+Proof. exact Proofs_RegWitness.reach2_model_invariants. Qed.
+Print Assumptions reach2_model_invariants.
